@@ -532,7 +532,7 @@ print(json.dumps([hashlib.sha1(np.ascontiguousarray(np.asarray(a, dtype=float)).
 
 
 def run_script(p):
-    env = dict(os.environ, PYTHONPATH="/repo", TQDM_DISABLE="1")
+    env = dict(os.environ, PYTHONPATH=common.REPO, TQDM_DISABLE="1")
     r = subprocess.run(["/venv/bin/python", "-c", SCRIPT, json.dumps(p)], stdout=subprocess.PIPE, stderr=subprocess.PIPE,
                        env=env, timeout=300)
     if r.returncode != 0:
